@@ -63,10 +63,12 @@ Record beh := {
   b_big : bool;             (* the pickled payload is written with more than one write() *)
   b_pick : bool;            (* the payload can be pickled *)
   b_async : bool;           (* the callee is a coroutine function *)
+  b_ret_err : bool;         (* the value the callee RETURNS is itself an instance of SubprocessError *)
 }.
 
 (* exception objects in the state: the callee's own exception object, or a fresh one of a class *)
-Inductive xval := XCallee | XCls (c : exn).
+Inductive xval := XCallee | XCls (c : exn)
+              | XRetAttr.   (* whatever the `.exception` attribute of the callee's RETURN value holds *)
 
 Inductive pfinal :=
 | FReturnCallee        (* returns (a copy of) exactly the callee's return value *)
@@ -133,6 +135,7 @@ Section Local.
     match x with
     | XCallee => if b_isa b StopIterationC then XCls RuntimeErrorC else XCallee
     | XCls c => if derives c StopIterationC then XCls RuntimeErrorC else XCls c
+    | XRetAttr => XRetAttr      (* the class of that attribute is outside the vocabulary *)
     end.
 
   Fixpoint find_handler (e : exn) (hs : list (list exn * paction)) : option paction :=
@@ -194,7 +197,10 @@ Section Local.
     | PRaiseIfError =>
         match p_result p with
         | Some (RErr x) => Some (p_finish s (FRaise (pep479 x)))
-        | Some RVal => Some (p_next s)
+        | Some RVal =>
+            (* isinstance(result, SubprocessError) cannot tell the child's error envelope from a
+               callee that returns such an object: its `.exception` is raised instead of returned *)
+            if b_ret_err b then Some (p_finish s (FRaise XRetAttr)) else Some (p_next s)
         | None => Some (p_finish s (FRaise (XCls NameErrorC)))       (* `result` is unbound *)
         end
     | PReturn =>
